@@ -47,7 +47,7 @@ CHECK_DEADLOCK FALSE
 '''
 
 MINE = {"AllOrNothing", "OutcomeAsSpecified", "MemEqualsLoad", "LoadIsStore", "RefIntegrity", "NamesConsistent",
-        "RunningUntouched", "ConfigProvisionedUntouched", "GetMatchesList"}
+        "RunningUntouched", "ConfigProvisionedUntouched", "GetMatchesList", "NoPanic"}
 
 
 def cfg(np, nc, nr, depth, mode, cfgs=("k1",), statuses=("running", "stopped"), fault_refused=False):
@@ -206,6 +206,20 @@ class Check:
         if bad:
             raise vlib.Infra("harness errors in %d scenarios, e.g. %s: %s" % (len(bad), bad[0][0].get("scenario"),
                              [e for e in bad[0] if e["ev"] in ("HarnessError", "ChildTimeout", "Panic")][:2]))
+        # a panic inside the project's code while it handles an API call (the server would have crashed mid-call):
+        # a verdict, reported with the call that was in progress; the calls before it are validated as usual
+        for sc, tr in zip(scs, traces):
+            for e in tr:
+                if e["ev"] == "EnginePanic":
+                    call = [c for c in tr if c["ev"] == "Call"][-1:]
+                    op = call[0]["op"] if call else {}
+                    rec = {"invariant": "NoPanic", "engine": "orchestrator", "features": sc["features"], "op": op.get("k"),
+                           "fault": op.get("f", "none"), "fault_at": op.get("f", "none"), "fields": "",
+                           "what": (e["what"] + " | " + e.get("stack", ""))[:900], "scenario": sc["id"],
+                           "step": call[0]["i"] if call else None, "at": e["n"]}
+                    self.viol_count[(rec["invariant"], rec["op"], rec["fault_at"], "")] += 1
+                    self.verdict.add(rec, lambda sc=sc, tr=tr, rec=rec: vlib.write_replay(
+                        PROP, sc["id"], sc, [x for x in tr if x["ev"] in ("Reset", "Obs", "Call", "Ret", "EnginePanic")], rec))
         self.absorb(scs, traces)
         self.prefix_not_reproduced += sum(1 for tr in traces for e in tr if e["ev"] == "Obs" and e["prefix_errors"] > 0)
         proj = vlib.project(traces, keep={"Reset", "Obs", "Call", "Ret"}, drop_fields=("t", "storeops"))
